@@ -29,7 +29,7 @@ PY
     ALLRC="$ALLRC $c=$rc"; [ $rc -eq 1 ] && DET="$DET $c"
     [ $rc -ge 2 ] && echo "$ID: check $c machinery exit $rc"
   done
-  git -C /repo checkout -- .
+  git -C /repo checkout -- . && git -C /repo clean -fdq src
   echo "$ID: ran:$ALLRC"
   python3 - "$ID" "$DET" "$ALLRC" <<'PY'
 import json,sys
